@@ -308,3 +308,22 @@ def render_fn(fn, recipe, log):
             body = body[:p] + "\n" + pre.rstrip() + "\n{" + post.rstrip() + "\n" + body[p + 1:]
     spec = recipe.get("spec", "")
     return f"{sig}\n{spec.rstrip()}\n{body}\n"
+
+
+def find_enum(src, name):
+    m = re.search(r"^(?:pub(?:\([^)]*\))?\s+)?enum\s+" + re.escape(name) + r"\b[^{]*\{", src, re.M)
+    if not m:
+        raise ExtractError(f"enum {name} not found")
+    c = match_brace(src, m.end() - 1)
+    text = src[m.start():c + 1]
+    # strip doc comments and attributes (declaration text only)
+    text = re.sub(r"^\s*///[^\n]*\n", "", text, flags=re.M)
+    text = re.sub(r"^\s*#\[[^\]]*\]\s*\n", "", text, flags=re.M)
+    return text
+
+
+def find_const_item(src, name):
+    m = re.search(r"^(?:pub(?:\([^)]*\))?\s+)?const\s+" + re.escape(name) + r"\s*:[^;]+;", src, re.M)
+    if not m:
+        raise ExtractError(f"const {name} not found")
+    return m.group(0)
